@@ -27,7 +27,40 @@ RULE = ('for one (world or tax year, requested forms, persona) a group of 6-12 r
         'distinct attempt-trace digests inside such groups')
 
 
+class Hung(object):
+    """stands in for a run that did not finish (budget / CPU alarm): an outcome like any other for comparison"""
+    outcome = 'no-termination'
+    exc = None
+    solution = None
+    unimpl = unmet_in = unmet_f = None
+
+    def __init__(self, supplied, e):
+        from ..monitor import Monitor
+        self.supplied = list(supplied)
+        self.input_texts = {}
+        self.monitor = Monitor()
+        self.why = f'{type(e).__name__}: {e}'
+
+        class R(object):
+            attempts = prompts = sort_calls = 0
+            sched_seed = None
+            events = []
+        self.rec = R()
+
+    def trace_digest(self):
+        return 0
+
+
+def guarded(fn, supplied):
+    try:
+        return fn()
+    except (core.RunTimeout, core.BudgetExceeded) as e:
+        return Hung(supplied, e)
+
+
 def observable(run):
+    if run.outcome == 'no-termination':
+        return ('no-termination',)
     if run.outcome == 'abort':
         return ('abort',)
     return (run.outcome, core.canon(run.solution), sorted(set(run.unimpl)),
@@ -85,9 +118,11 @@ def evaluate(case, engine, acc=None):
         if refused and v['split'] != 'same':
             # the base session was cut short: only attempt-order/layout variants of the *same* session are comparable by model
             v = dict(v, split='same')
-        runs.append((v, run_variant(case, base_run, v)))
+        runs.append((v, guarded(lambda: run_variant(case, base_run, v), base_run.supplied)))
     # each run against the model on its own final inputs
     for tag, run in runs:
+        if run.outcome == 'no-termination':
+            continue
         r1 = simrun.model_for(case, run)
         for f in simrun.judge(case, run, r1):
             if f['oracle'] in ('C05.model', 'P1'):
